@@ -26,6 +26,9 @@ func (cb *CBLC) parseIndexSubTables(src []byte) error {
 		}
 		sizeSubtables := make([]BitmapSubtable, len(subtables.Subtables))
 		for j, subtable := range subtables.Subtables {
+			if subtable.LastGlyph < subtable.FirstGlyph {
+				return fmt.Errorf("invalid bitmap index subtable glyph range (%d > %d)", subtable.FirstGlyph, subtable.LastGlyph)
+			}
 			numGlyphs := int(subtable.LastGlyph) - int(subtable.FirstGlyph) + 1
 			subtableStart := start + int(subtable.additionalOffsetToIndexSubtable)
 			if L := len(src); L < subtableStart {
